@@ -92,6 +92,7 @@ type c07Case struct {
 	Timeouts []int `json:"timeouts,omitempty"` // segment indices before which a read timeout is injected
 	Bufs     []int `json:"bufs"`               // caller buffer sizes, cycled
 	Writes   bool  `json:"writes,omitempty"`   // the application writes (a response / an event) on the connection after every caller Read
+	TwoConns bool  `json:"two_connections,omitempty"` // the scenario of c07TwoConns (lens = {closes, buffer})
 }
 
 var c07Secret = [32]byte{9, 8, 7, 6, 5, 4, 3, 2, 1}
@@ -111,6 +112,15 @@ func c07Exec(c *fw.Ctx, cas c07Case) {
 		msg := pat(n, byte(13*i+1))
 		base := len(stream)
 		pl := len(plain)
+		if n == 0 {
+			// an explicit frame WITHOUT data (length 0, valid tag): well-formed, carries nothing, consumes a counter
+			hdr := []byte{0, 0}
+			stream = append(stream, hdr...)
+			stream = append(stream, refctl.Seal(c2a, refctl.CounterNonce(ctr), nil, hdr)...)
+			ctr++
+			frameEnd = append(frameEnd, len(stream))
+			plainAt = append(plainAt, pl)
+		}
 		stream = append(stream, refctl.Frames(c2a, &ctr, msg)...)
 		plain = append(plain, msg...)
 		for _, sp := range refctl.FrameSpans(n) {
@@ -439,6 +449,104 @@ func commonPrefix(a, b []byte) int {
 	return n
 }
 
+// c07TwoConns: connections come and go (one is closed twice, as a transport that stops does), then two connections of
+// one accessory, each with its own session, receive their own streams and are read alternately with small buffers:
+// each delivers exactly what ITS peer sent.
+func c07TwoConns(c *fw.Ctx) {
+	for _, closes := range []int{0, 1, 2, 3} {
+		for _, buf := range []int{1, 7, 4096} {
+			c.Eval(1)
+			cas := c07Case{Lens: []int{closes, buf}, Bufs: []int{buf}, TwoConns: true}
+			ctx := hap.NewContextForSecuredDevice(nil)
+			// earlier connections of the same accessory
+			for i := 0; i < 2; i++ {
+				old := hap.NewConnection(&scriptedConn{remote: fmt.Sprintf("10.0.0.7:%d", 4000+i)}, ctx)
+				old.Read(make([]byte, 8))
+				for k := 0; k < closes; k++ {
+					old.Close()
+				}
+			}
+			type side struct {
+				conn  *hap.Connection
+				plain []byte
+				got   []byte
+			}
+			var sides []*side
+			for i := 0; i < 2; i++ {
+				var secret [32]byte
+				copy(secret[:], pat(32, byte(90+i)))
+				_, c2a := refctl.SessionKeys(secret[:])
+				var ctr uint64
+				var stream, plain []byte
+				for j, n := range []int{40, 1025, 3} {
+					msg := pat(n, byte(50*i+j))
+					plain = append(plain, msg...)
+					stream = append(stream, refctl.Frames(c2a, &ctr, msg)...)
+				}
+				var segs []c07Seg
+				for off := 0; off < len(stream); off += 300 {
+					end := off + 300
+					if end > len(stream) {
+						end = len(stream)
+					}
+					segs = append(segs, c07Seg{data: stream[off:end]})
+				}
+				sc := &scriptedConn{segs: segs, remote: fmt.Sprintf("10.0.0.8:%d", 5000+i)}
+				conn := hap.NewConnection(sc, ctx)
+				cs, err := hccrypto.NewSecureSessionFromSharedKey(secret)
+				if err != nil {
+					c.Infra(err.Error())
+					return
+				}
+				ctx.GetSessionForConnection(sc).SetCryptographer(cs)
+				sides = append(sides, &side{conn: conn, plain: plain})
+			}
+			failed := false
+			for round := 0; round < 5000 && !failed; round++ {
+				progress := false
+				for i, sd := range sides {
+					if len(sd.got) >= len(sd.plain) {
+						continue
+					}
+					b := make([]byte, buf)
+					var n int
+					var err error
+					if p := guard(func() { n, err = sd.conn.Read(b) }); p != nil {
+						c.Report("two-connections/panic", fmt.Sprintf("Read panics: %v", p), cas)
+						failed = true
+						break
+					}
+					sd.got = append(sd.got, b[:n]...)
+					if n > 0 {
+						progress = true
+					}
+					if err != nil {
+						if ne, ok := err.(net.Error); ok && ne.Timeout() {
+							continue
+						}
+						c.Report(fmt.Sprintf("two-connections/error/closes=%d", closes), fmt.Sprintf("connection %d of two that are read alternately (after %d earlier connections were closed %d times each): Read returned %v after %d of %d bytes", i, 2, closes, err, len(sd.got), len(sd.plain)), cas)
+						failed = true
+						break
+					}
+				}
+				if !progress {
+					break
+				}
+			}
+			if failed {
+				continue
+			}
+			for i, sd := range sides {
+				if !bytes.Equal(sd.got, sd.plain) {
+					c.Report(fmt.Sprintf("two-connections/differs/closes=%d", closes), fmt.Sprintf("connection %d of two that are read alternately delivered %d bytes, %d of them as sent (its peer sent %d)", i, len(sd.got), commonPrefix(sd.got, sd.plain), len(sd.plain)), cas)
+					break
+				}
+			}
+			c.Class(fmt.Sprintf("two-connections/closes=%d", closes))
+		}
+	}
+}
+
 func c07SwitchCases() []c07SwitchCase {
 	var out []c07SwitchCase
 	for _, ln := range []int{60, 1500} {
@@ -490,6 +598,9 @@ func c07Run(c *fw.Ctx) {
 		c07Exec(c, cas)
 	}
 	th := c.Thorough()
+	if c.Shard == 0 {
+		c07TwoConns(c)
+	}
 	for i, sw := range c07SwitchCases() {
 		if c.Mine(i) {
 			if i == 5 {
@@ -515,6 +626,27 @@ func c07Run(c *fw.Ctx) {
 		for _, p := range c07Policies {
 			do(c07Case{Lens: s, Bufs: p})
 			do(c07Case{Lens: s, Bufs: p, Writes: true})
+		}
+	}
+	// frames without data between and around messages (an independent peer may send them)
+	for _, a := range []int{1, 1024, 1025} {
+		for _, b := range []int{1, 1024} {
+			for _, sq := range [][]int{{a, 0, b}, {0, a}, {a, 0}, {a, 0, 0, b}} {
+				total := 0
+				for _, n := range sq {
+					total += ctLen(n)
+					if n == 0 {
+						total += 18
+					}
+				}
+				for _, p := range c07Policies {
+					do(c07Case{Lens: sq, Bufs: p})
+					do(c07Case{Lens: sq, Bufs: p, Coalesce: []int{0, 1, 2}})
+				}
+				for x := 1; x < total; x++ {
+					do(c07Case{Lens: sq, Cuts: []int{x}, Bufs: []int{4096}})
+				}
+			}
 		}
 	}
 	// deviation bound 1
@@ -597,7 +729,7 @@ func init() {
 	fw.Register(&fw.Check{
 		ID:    "C07",
 		Level: "model_checking",
-		Rule:  "deviation-bounded exhaustive exploration of network behaviours for a real hap.Connection over a scripted net.Conn: message sequences of length 1–2 (thorough 1–3) over lengths {1,2,17,1023,1024,1025,2048,4095,4096,4097} × 6 caller-buffer policies (1, 7, 1024, 4096, 8192, net/http's 1-then-4096); 0 deviations = one segment per message; deviations = split at every byte offset, coalesce adjacent segments, read timeout before a segment, the application writing on the connection between caller reads; bound 1 completely, bound 2 for split+timeout, coalesce+split (thorough: all length pairs; every pair of splits for messages ≤1025). Plus the session-switch scenarios: every placement of 1–3 Read calls (blocked until data or aborted by a timeout) relative to the world steps install-cryptographer / write-response / first-ciphertext-arrives: the response must reach the wire in plaintext and the request must be delivered as its plaintext. Oracle per execution: exact byte equality, no EOF/error/close while the peer sends well-formed frames, and the promptness invariant (the network is asked for more only when every completely received frame has been handed to the caller). states = executions, distinct_nontrivial = distinct (deviation kind, message count, number of underlying reads) classes Session-switch scenarios are repeated for a SECOND pair-verify on a connection that is already encrypted (one request delivered under the first keys; the second exchange's response leaves under the first keys, what follows is read under the new ones). Plus, in a subprocess built with a scheduling point before EVERY statement of hc's packages (textual insertion through go build -overlay): every interleaving with at most 1 (thorough 2) preemptions of pairs of handlers / users of connections on one accessory (a verified and a newly accepted unverified connection; two writers, a writer and the reader of one encrypted connection, writers on two connections) — each side must observe exactly what it observes when the two run one after the other.",
+		Rule:  "deviation-bounded exhaustive exploration of network behaviours for a real hap.Connection over a scripted net.Conn: message sequences of length 1–2 (thorough 1–3) over lengths {1,2,17,1023,1024,1025,2048,4095,4096,4097} × 6 caller-buffer policies (1, 7, 1024, 4096, 8192, net/http's 1-then-4096); 0 deviations = one segment per message; deviations = split at every byte offset, coalesce adjacent segments, read timeout before a segment, the application writing on the connection between caller reads; bound 1 completely, bound 2 for split+timeout, coalesce+split (thorough: all length pairs; every pair of splits for messages ≤1025). Plus the session-switch scenarios: every placement of 1–3 Read calls (blocked until data or aborted by a timeout) relative to the world steps install-cryptographer / write-response / first-ciphertext-arrives: the response must reach the wire in plaintext and the request must be delivered as its plaintext. Oracle per execution: exact byte equality, no EOF/error/close while the peer sends well-formed frames, and the promptness invariant (the network is asked for more only when every completely received frame has been handed to the caller). states = executions, distinct_nontrivial = distinct (deviation kind, message count, number of underlying reads) classes Frames WITHOUT data (length 0, valid tag) between and around messages, at every split offset. Two connections of one accessory read alternately after earlier connections were closed 0–3 times each: each delivers exactly what its peer sent. Session-switch scenarios are repeated for a SECOND pair-verify on a connection that is already encrypted (one request delivered under the first keys; the second exchange's response leaves under the first keys, what follows is read under the new ones). Plus, in a subprocess built with a scheduling point before EVERY statement of hc's packages (textual insertion through go build -overlay): every interleaving with at most 1 (thorough 2) preemptions of pairs of handlers / users of connections on one accessory (a verified and a newly accepted unverified connection; two writers, a writer and the reader of one encrypted connection, writers on two connections) — each side must observe exactly what it observes when the two run one after the other.",
 		Run:   c07Run,
 		Replay: func(c *fw.Ctx, raw json.RawMessage) {
 			var sw c07SwitchCase
@@ -607,6 +739,10 @@ func init() {
 			}
 			var cas c07Case
 			json.Unmarshal(raw, &cas)
+			if cas.TwoConns {
+				c07TwoConns(c)
+				return
+			}
 			c07Exec(c, cas)
 		},
 		Budget: func(t string) time.Duration {
